@@ -121,6 +121,46 @@ pub fn oprf_check(a: &Args) -> Report {
       rep.sample(json!({"input_len": x.len(), "servers": servers.len(), "blindings_per_class": r_n}));
     }
   }
+  // freshness across client THREADS: unnamed workers, workers sharing a name, and the main thread
+  // each blind the same inputs; no blinded request may repeat anywhere (a per-thread generator
+  // seeded alike would make the k-th request of two workers coincide: linkable by the server)
+  let mut all: HashMap<Vec<u8>, String> = HashMap::new();
+  let mut handles: Vec<(String, std::thread::JoinHandle<Vec<Vec<u8>>>)> = Vec::new();
+  let work = |ins: Vec<Vec<u8>>| move || -> Vec<Vec<u8>> {
+    let mut v = Vec::new();
+    for _ in 0..3 {
+      for x in &ins {
+        v.push(Client::blind(x).0.as_bytes().to_vec());
+      }
+    }
+    v
+  };
+  let few: Vec<Vec<u8>> = ins.iter().take(3).cloned().collect();
+  for i in 0..4 {
+    handles.push((format!("unnamed-{i}"), std::thread::spawn(work(few.clone()))));
+  }
+  for i in 0..3 {
+    if let Ok(h) = std::thread::Builder::new().name("client-worker".into()).spawn(work(few.clone())) {
+      handles.push((format!("same-name-{i}"), h));
+    }
+  }
+  let mut runs: Vec<(String, Vec<Vec<u8>>)> = vec![("main".into(), work(few.clone())())];
+  for (n, h) in handles {
+    if let Ok(v) = h.join() {
+      runs.push((n, v));
+    }
+  }
+  for (who, v) in runs {
+    for (k, b) in v.into_iter().enumerate() {
+      rep.evaluations += 1;
+      if let Some(prev) = all.insert(b, format!("{who}#{k}")) {
+        rep.violation("C12", "Client::blind", "blinded-request-repeats-across-threads",
+          format!("request {k} of thread {who} equals request {prev}: blinded requests are not fresh"),
+          json!({"first": prev, "second": format!("{who}#{k}")}));
+      }
+    }
+    rep.nontrivial(format!("thread-fresh:{who}"));
+  }
   rep.traces = 1;
   rep
 }
